@@ -837,7 +837,6 @@ func GenRedefineFocus(g G) (*Scenario, []int) {
 	return b.Sc, uf
 }
 
-
 // GenPaletteHostile draws a palette whose names and subtypes contain the
 // characters and fragments that label-keyed data structures are sensitive to:
 // "/" together with the (lower-case) String() of the types in play, and names
